@@ -152,6 +152,10 @@ class Scripted:
             for row in call:
                 key = (freeze(dec(row["ctx"])), freeze([dec(a) for a in row["actions"]]))
                 self.script.setdefault(key, row)
+        # batch-awareness is a property of each METHOD (SafeLearner memoises the call style per method): by default learn and
+        # score take batches iff predict does
+        self.learn_batch = bool(case.get("learn_batch", self.layout != "single"))
+        self.score_batch = bool(case.get("score_batch", self.layout != "single"))
         self.predict_calls = []   # (batched?, context, actions) as received
         self.answers = []         # what was returned (object), or the exception
         self.learn_calls = []     # (batched?, context, action, reward, probability, kwargs)
@@ -260,7 +264,7 @@ class Scripted:
         if not batched:
             row = self._row(context, actions)
             return dec(row["p"]) if action == actions[row["pick"]] else 0.0
-        if self.layout == "single":
+        if not self.score_batch:
             raise NotBatchable("this learner cannot score batches")
         out = []
         for c, A, x in zip(context, actions, action):
@@ -270,7 +274,7 @@ class Scripted:
 
     def learn(self, context, action, reward, probability, **kwargs):
         batched = is_batch(context) or is_batch(action) or is_batch(reward)
-        if batched and self.layout == "single":
+        if batched and not self.learn_batch:
             self.learn_calls.append(("rejected",))
             raise NotBatchable("this learner cannot learn from batches")
         self.learn_calls.append((batched, context, action, reward, probability, kwargs))
